@@ -193,6 +193,8 @@ class FuncTr:
             n = f.id
             if n == "len" and len(e.args) == 1 and not kw:
                 return f"(Z.of_nat (length {self.expr(e.args[0])}))"
+            if n in ("max", "min") and len(e.args) == 2 and not kw and not self.qmode:
+                return f"(Z.{n} {self.expr(e.args[0])} {self.expr(e.args[1])})"
             if n == "sum" and len(e.args) == 1 and not kw:
                 return f"(sumZ {self.expr(e.args[0])})"
             if n == "str" and len(e.args) == 1 and not kw:
